@@ -31,6 +31,72 @@ const (
 	watchdog            = 5 * time.Second
 )
 
+// cancelAtIO: one HandshakeContext caller whose context is cancelled at a chosen point of the transcript. Nobody else
+// can close the transport, so at return: nil => the transport was not closed (the interrupter did not act) and the
+// connection works; transport closed (by the interrupter) => the caller gets its context error; context error =>
+// the transport is closed.
+func cancelAtIO(c *vh.Ctx, p plan, uc *utls.UConn, rc *recConn) {
+	key := fmt.Sprintf("cancel-at-io/%s/w%d/r%d/%s", p.ID, p.AtWrite, p.AtRead, map[bool]string{true: "wait", false: "nowait"}[p.WaitClose])
+	ctx, cancel := context.WithCancel(context.Background())
+	defer cancel()
+	rc.atWrite, rc.atRead, rc.waitClose, rc.inject = p.AtWrite, p.AtRead, p.WaitClose, cancel
+	done := make(chan error, 1)
+	go func() { done <- uc.HandshakeContext(ctx) }()
+	var err error
+	select {
+	case err = <-done:
+	case <-time.After(watchdog):
+		c.Fail("deadlock/"+key, "HandshakeContext did not return", p, "blocked", "returns")
+		rc.Close()
+		return
+	}
+	closed := rc.closed.Load()
+	fired := rc.fired.Load()
+	complete := uc.ConnectionState().HandshakeComplete
+	isCtx := errors.Is(err, context.Canceled)
+	got := fmt.Sprintf("err=%v transport-closed=%v ctx-cancelled=%v complete=%v writes=%d reads=%d", err, closed, fired, complete, rc.writes.Load(), rc.reads.Load())
+	class := "RHsErr"
+	switch {
+	case err == nil:
+		class = "RNil"
+		if closed {
+			c.Fail("nil-but-closed/"+key, "HandshakeContext returned nil although the cancellation of its context has closed the connection", p, got,
+				"its context error (the connection is closed), or nil with an untouched connection")
+		} else {
+			uc.SetDeadline(time.Now().Add(ioDeadline))
+			buf := make([]byte, 5)
+			if _, e := io.ReadFull(uc, buf); e != nil {
+				c.Fail("nil-but-unusable/"+key, "HandshakeContext returned nil but the connection does not work", p, got+" read: "+e.Error(), "greeting readable")
+			} else if _, e := uc.Write([]byte("ping")); e != nil {
+				c.Fail("nil-but-unusable/"+key, "HandshakeContext returned nil but the connection does not work", p, got+" write: "+e.Error(), "Write works")
+			}
+		}
+		if !complete {
+			c.Fail("nil-incomplete/"+key, "HandshakeContext returned nil but the handshake is not complete", p, got, "nil iff complete")
+		}
+	case isCtx:
+		class = "RCtx"
+		if !closed || !fired {
+			c.Fail("ctx-error/"+key, "context error returned without the context having been cancelled or without the connection having been closed", p, got, "closed and cancelled")
+		}
+	default:
+		if closed && fired {
+			c.Fail("closed-not-ctx-error/"+key, "the caller's context was cancelled and that closed the connection, but HandshakeContext returned a different error", p, got, "ctx.Err()")
+		}
+		if complete {
+			c.Fail("error-complete/"+key, "a handshake error was returned although the handshake completed", p, got, "shared outcome")
+		}
+	}
+	c.Count("kind:cancel-at-io")
+	if fired {
+		c.Count("cancel-at-io:fired")
+	}
+	// the interrupter acted iff the transport is closed (nobody else closes it in this scenario)
+	c.OracleCase("interrupt", fmt.Sprintf("CInterrupt %s %s %s %s", class, vh.Bool(closed), vh.Bool(fired), vh.Bool(complete)),
+		"interrupt/"+key, "result and interrupter action are not a combination the lock model allows", p, fired)
+	rc.Close()
+}
+
 // stalledWriteClose: handshake, then the peer stops reading; one Write parks in the transport with no write
 // deadline; Close must still return (it sees the Write in flight and closes the transport, which ends the Write).
 func stalledWriteClose(c *vh.Ctx, p plan, uc *utls.UConn, rc *recConn) {
@@ -88,6 +154,12 @@ type recConn struct {
 	closedCh  chan struct{}
 	blockOnce sync.Once
 	closeOnce sync.Once
+	// injection at the k-th transport write / read (1-based; 0 = never)
+	writes, reads   atomic.Int32
+	atWrite, atRead int
+	inject          func()
+	waitClose       bool
+	fired           atomic.Bool
 }
 
 func newRecConn(c net.Conn) *recConn {
@@ -106,7 +178,33 @@ func (r *recConn) Write(b []byte) (int, error) {
 		<-r.closedCh
 		return 0, net.ErrClosed
 	}
-	return r.Conn.Write(b)
+	n, err := r.Conn.Write(b)
+	if k := r.writes.Add(1); r.inject != nil && int(k) == r.atWrite {
+		r.fire()
+	}
+	return n, err
+}
+
+func (r *recConn) Read(b []byte) (int, error) {
+	n, err := r.Conn.Read(b)
+	if k := r.reads.Add(1); r.inject != nil && int(k) == r.atRead {
+		r.fire()
+	}
+	return n, err
+}
+
+// fire runs the injected action (cancelling a context) at the chosen point of the transcript; with waitClose it then
+// waits, bounded, until the transport has been closed, so that the interrupter has certainly acted before the
+// handshake goes on
+func (r *recConn) fire() {
+	r.fired.Store(true)
+	r.inject()
+	if r.waitClose {
+		select {
+		case <-r.closedCh:
+		case <-time.After(200 * time.Millisecond):
+		}
+	}
 }
 
 var ids = []struct {
@@ -133,6 +231,9 @@ type plan struct {
 	HandshakeFirst bool    `json:"handshake_first"` // the handshake is completed before the callers start
 	RenegDelay int         `json:"hello_request_delay_us"`
 	Spinners   int         `json:"spinning_callers"`
+	AtWrite    int         `json:"cancel_at_write"` // cancel the caller's ctx right after the k-th transport write (0 = no)
+	AtRead     int         `json:"cancel_at_read"`  // ... right after the k-th transport read
+	WaitClose  bool        `json:"wait_for_close"`
 	Callers   []callerPlan `json:"callers"`
 	Reader    bool         `json:"reader"`
 	Writer    bool         `json:"writer"`
@@ -169,7 +270,20 @@ func mkPlan(r *rand.Rand, seed int64, i int) plan {
 			p.Callers = append(p.Callers, callerPlan{StartDelay: r.Intn(200), CancelAt: -1})
 		}
 		return p
-	case 2, 6:
+	case 6:
+		// the caller's ctx is cancelled at a chosen index of the handshake transcript: right after the k-th
+		// transport write (up to and including the last one) or the k-th transport read
+		p.Kind, p.Server = "cancel-at-io", "normal"
+		// (a TLS 1.3 client handshake is 2-3 transport writes and 2-5 reads; larger indexes never fire and are
+		// counted as such)
+		if r.Intn(2) == 0 {
+			p.AtWrite = 1 + r.Intn(3)
+		} else {
+			p.AtRead = 1 + r.Intn(5)
+		}
+		p.WaitClose = r.Intn(4) != 0
+		return p
+	case 2:
 		// TLS 1.2 peer that asks for a renegotiation (HelloRequest) while a reader sits in Read and other
 		// goroutines keep calling Handshake / HandshakeContext / Write
 		p.Kind, p.Server = "renegotiation", "hello-request"
@@ -462,6 +576,10 @@ func runPlan(c *vh.Ctx, p plan, scfg *tls.Config) {
 	uc.SetDeadline(time.Now().Add(ioDeadline))
 	if p.Kind == "stalled-write-close" {
 		stalledWriteClose(c, p, uc, rc)
+		return
+	}
+	if p.Kind == "cancel-at-io" {
+		cancelAtIO(c, p, uc, rc)
 		return
 	}
 	if p.HandshakeFirst {
